@@ -76,7 +76,7 @@ func liveChild(args []string) {
 	b, _ := ioutil.ReadFile(args[0])
 	json.Unmarshal(b, &lc)
 	dir := lib.Scratch("C12-live")
-	defer os.RemoveAll(dir)
+	defer lib.RemoveLater(dir)
 	res := sim.RunLive(sim.LiveConfig{N: lc.N, Powers: lc.Powers, Dir: dir, Label: fmt.Sprintf("c12-%d", lc.Case), Heights: lc.Heights,
 		Watchdog: 4 * time.Minute, Silent: lc.Silent, NilVoter: lc.NilVoter, MaxRounds: 25, LateJoiner: lc.Late, Crasher: lc.Crasher, JoinAfter: lc.JoinAt, GossipBound: 3000})
 	jb, _ := json.Marshal(res)
